@@ -9,6 +9,7 @@ PROP = dict(
          'releases its reference concurrently (ASan build and TSan build). non-trivial = history with an assignment over a non-empty handle '
          'AND a destruction caused by a handle op; thread program with >= 2 threads; distinct by hash of the case',
     floor=dict(quick=1500, thorough=15000),
+    confirm_replays=10,
     assumptions=TRUST + ['thread interleavings are sampled; TSan happens-before analysis covers the executed accesses'],
     bins=[rc('C08_refcount', 'harness/C08_refcount.cpp', None),
           rc('C08_refcount_tsan', 'harness/C08_refcount.cpp', None, cxx='g++', san='-fsanitize=thread -fno-omit-frame-pointer',
